@@ -1,3 +1,4 @@
+import QM.Generated.Tables
 namespace P
 abbrev Str := List Char
 
@@ -11,6 +12,7 @@ def unhex (c : Char) : Option Nat :=
   else none
 def unoct (c : Char) : Option Nat := if '0' ≤ c ∧ c ≤ '7' then some (c.toNat - 48) else none
 
+/-- systemd's cunescape_one single-letter escapes (frozen specification table) -/
 def simpleTable : List (Char × Char) :=
   [('a','\x07'),('b','\x08'),('f','\x0c'),('n','\n'),('r','\r'),('t','\t'),('v','\x0b'),('\\','\\'),('"','"'),('\'','\''),('s',' ')]
 
@@ -56,13 +58,14 @@ theorem readNum_length {k c r v r'} (h : readNum k c r = some (v, r')) : r'.leng
 
 /-- a decoder is given by which numeric values it accepts and what it does with unknown letters -/
 structure DecCfg where
+  tbl : List (Char × Char)
   valid : NumKind → Nat → Bool
   unknown : Char → Option Char
 
 def decode (cfg : DecCfg) : Str → Option (Char × Str)
   | [] => none
   | c :: r =>
-    match simpleTable.lookup c with
+    match cfg.tbl.lookup c with
     | some d => some (d, r)
     | none =>
       match numKindOf c with
@@ -87,11 +90,13 @@ theorem decode_length {cfg s d r} (h : decode cfg s = some (d, r)) : r.length < 
 
 /-- systemd's cunescape_one restricted to results representable as the same text in Rust -/
 def specCfg : DecCfg where
+  tbl := simpleTable
   valid k v := v != 0 && (match k with | .x | .oct => v < 128 | .u | .U => validScalar v)
   unknown _ := none
 
-/-- Rust parse_escape_sequence (split.rs flavour) -/
+/-- Rust parse_escape_sequence (split.rs flavour); the single-letter table is the one extracted from split.rs -/
 def implCfg : DecCfg where
+  tbl := Gen.unescSplit
   valid _ v := v != 0 && validScalar v
   unknown c := some c
 
@@ -101,19 +106,58 @@ theorem valid_impl_of_spec {k v} (h : specCfg.valid k v = true) : implCfg.valid 
   refine ⟨h.1, ?_⟩
   cases k <;> simp at h <;> first | exact h.2 | (simp [validScalar]; omega)
 
+/-- every single-letter escape of the specification is decoded the same way by split.rs (checked against the extracted table) -/
+theorem implTbl_of_spec : ∀ p ∈ simpleTable, Gen.unescSplit.lookup p.1 = some p.2 := by decide
+/-- the extracted table does not shadow the numeric escapes -/
+theorem implTbl_numeric : ∀ c ∈ ['x', 'u', 'U', '0', '1', '2', '3', '4', '5', '6', '7'], Gen.unescSplit.lookup c = none := by decide
+
+theorem lookup_mem {α β} [BEq α] [LawfulBEq α] (l : List (α × β)) (a : α) (b : β)
+    (h : l.lookup a = some b) : (a, b) ∈ l := by
+  induction l with
+  | nil => simp at h
+  | cons p l ih =>
+    obtain ⟨x, y⟩ := p
+    simp only [List.lookup] at h
+    split at h
+    · rename_i he; simp at he; simp at h; subst he; subst h; simp
+    · simp [ih h]
+
+theorem numKind_mem {c k} (h : numKindOf c = some k) : c ∈ ['x', 'u', 'U', '0', '1', '2', '3', '4', '5', '6', '7'] := by
+  unfold numKindOf at h
+  split at h
+  · rename_i hc; simp at hc; subst hc; simp
+  · split at h
+    · rename_i hc; simp at hc; subst hc; simp
+    · split at h
+      · rename_i hc; simp at hc; subst hc; simp
+      · split at h
+        · rename_i hc
+          have h1 : 48 ≤ c.toNat := by have := hc.1; exact this
+          have h2 : c.toNat ≤ 55 := by have := hc.2; exact this
+          have : c = Char.ofNat c.toNat := (Char.ofNat_toNat c).symm
+          rw [this]
+          have : c.toNat = 48 ∨ c.toNat = 49 ∨ c.toNat = 50 ∨ c.toNat = 51 ∨ c.toNat = 52 ∨ c.toNat = 53 ∨ c.toNat = 54 ∨ c.toNat = 55 := by omega
+          rcases this with h | h | h | h | h | h | h | h <;> rw [h] <;> decide
+        · simp at h
+
 theorem decode_impl_of_spec {s d r} (h : decode specCfg s = some (d, r)) : decode implCfg s = some (d, r) := by
   cases s with
   | nil => simp [decode] at h
   | cons c t =>
     simp only [decode] at h ⊢
-    cases hl : simpleTable.lookup c with
-    | some d' => simp only [hl] at h ⊢; exact h
+    cases hl : specCfg.tbl.lookup c with
+    | some d' =>
+      simp only [hl] at h
+      have := implTbl_of_spec _ (lookup_mem _ _ _ hl)
+      simp only [implCfg, this]; exact h
     | none =>
-      simp only [hl] at h ⊢
+      simp only [hl] at h
       cases hk : numKindOf c with
       | none => simp [hk, specCfg, Option.map] at h
       | some k =>
-        simp only [hk] at h ⊢
+        have hn' : implCfg.tbl.lookup c = none := implTbl_numeric c (numKind_mem hk)
+        simp only [hk] at h
+        simp only [hn', hk]
         cases hn : readNum k c t with
         | none => simp [hn] at h
         | some p =>
